@@ -81,7 +81,7 @@ def dummyvar(cis, return_sparse=False):
     # num_rows is not affected by partition indexes
     n = np.size(cis, axis=0)
     m = np.size(cis, axis=1)
-    r = np.sum((np.max(len(np.unique(cis[:, i])))) for i in range(m))
+    r = sum((np.max(len(np.unique(cis[:, i])))) for i in range(m))
     nnz = np.prod(cis.shape)
 
     ix = np.argsort(cis, axis=0)
